@@ -259,7 +259,7 @@ void buildCases(Ctx& ctx)
 	gCases.clear();
 	// depth bounds chosen so that every bounded space is enumerated completely (no state cap is hit)
 	static const std::size_t quickDepth[] = { 0, 0, 12, 12, 12, 11, 9 };
-	static const std::size_t thoroughDepth[] = { 0, 0, 40, 24, 18, 14, 12, 10, 9 };
+	static const std::size_t thoroughDepth[] = { 0, 0, 40, 24, 18, 14, 12, 9, 8 };
 	for (int n = 2; n <= (ctx.thorough ? 8 : 6); ++n) gCases.push_back({ 0, n, 0, 0, 0, ctx.thorough ? thoroughDepth[n] : quickDepth[n] });
 	for (int w = 0; w < 8; ++w) gCases.push_back({ 1, 314, w, ctx.thorough ? 65221u : 20000u, ctx.thorough ? 1 : 16, 0 });
 	for (int w = 0; w < 4; ++w) gCases.push_back({ 1, 9, w, 3000u, 1, 0 });
